@@ -105,6 +105,14 @@ Proof.
 Qed.
 
 
+(* a restart re-reads the stores: the core is unchanged once the in-memory
+   filter tip agrees with the filter store (it always does: [good]) *)
+Lemma core_restart P s : ftipVar s = zlen (fchain s) - 1 -> core_of (restart P s) = core_of s.
+Proof.
+  intros H. unfold restart. destruct (chain_tip s); [|reflexivity].
+  unfold core_of. cbn [chain fchain ftipVar events]. rewrite H. reflexivity.
+Qed.
+
 (* ---------- one header of a message: the two halves of step_header ---------- *)
 Definition pre_out (P : params) (now p : Z) (a : acc) (bh : header) (rest : list header) (pn : node) : outcome * Z :=
   let s := a_s a in
@@ -953,7 +961,8 @@ Proof.
   intros HC Hn. pose proof HC as (G & HL & _).
   assert (Hsame : forall c', c' = core_of s -> cinv (n + hdr_count o) sub0 c' /\ step_rel P s o (core_of s) c').
   { intros c' ->. split; [eapply cinv_mono; [|exact HC]; lia|]. left. apply normA_refl. exact G. }
-  destruct o as [p now hs|p now x|p st la full|p|prev fs stop|h]; cbn [step hdr_count] in *.
+  destruct o as [p now hs|p now x|p st la full|p|prev fs stop|h|]; cbn [step hdr_count] in *.
+  7:{ apply Hsame. apply core_restart. destruct G as [_ G]. cbn [core_of k_ftip k_fchain] in G. exact G. }
   - destruct (shape_step n (length hs) sub0 _ _ HC Hn (handle_headers_shape P now p hs s)) as [H1 [H2|H2]].
     + split; [exact H1|]. left. exact H2.
     + split; [exact H1|]. right. right. split; [eauto|exact H2].
@@ -1564,7 +1573,9 @@ Definition step_rel2 (P : params) (s : state) (o : op) (c c' : core) : Prop :=
 
 Lemma step_J P s o : Jcp P (nextCp s) -> Jcp P (nextCp (step P s o)).
 Proof.
-  intros HJ. destruct o as [p now hs|p now x|p st la full|p|prev fs stop|h]; cbn [step].
+  intros HJ. destruct o as [p now hs|p now x|p st la full|p|prev fs stop|h|]; cbn [step].
+  7:{ unfold restart, chain_tip. destruct (last (chain s)) as [t|] eqn:Et; [|exact HJ].
+      cbn [nextCp]. apply find_next_cp_J. unfold tip_height, zlen. destruct (chain s); [discriminate|]. cbn [length]. lia. }
   - apply handle_headers_shape2. exact HJ.
   - rewrite nextCp_handle_inv. exact HJ.
   - rewrite nextCp_new_peer. exact HJ.
